@@ -632,8 +632,9 @@ FOREIGN_REPRO = [("a", ("bb", "aa")), ("a", ("ba", "aa")), ("a", ("c", "bb", "aa
 
 
 def foreign_symbol_reproducer(ctx):
-    """from_substrings (not must_be_suffix) with a pattern that has a symbol outside the alphabet (open finding):
-    the goto loop never visits the nodes behind that symbol, `end_state = len(transitions)` collides with a label."""
+    """from_substrings (not must_be_suffix) with a pattern that has a symbol outside the alphabet (finding fixed by ae299fb;
+    kept as a regression): the goto loop never visits the nodes behind that symbol, the old `end_state = len(transitions)`
+    collided with the label of a visited node; the repaired code uses len(labels)."""
     for k in ctx.known:
         if k["id"] != "substrings_pattern_symbol_outside_alphabet":
             continue
@@ -657,18 +658,26 @@ def foreign_symbol_reproducer(ctx):
                     break
             if witness:
                 break
-        if witness and witness[3] is not None and not str(witness[3]).startswith("raises"):
-            # the mirror model follows the code into the defect: same table on the failing input
-            sigma, pats, contains, _ = witness
-            pset = set(pats)
-            d = DFA.from_substrings(set(sigma), pset, contains=contains)
-            sy = enc.SymMap(sigma, extra="".join(pats))
-            timpl = enc.enc_dfa(d, lambda q: q, sy)
-            ap = [list(range(sy.n)), [sy.word(p) for p in pset], contains, False]
-            ans = ctx.driver.batch([(15, OP_AC, enc.tree([ap, [timpl]]))])[0]
-            mirror = enc.dec_res(ans[0])
-            same = mirror[0] == "ok" and enc.tree(canon_dfa_tree(mirror[1])) == enc.tree(timpl)
-            ctx.tally("known_foreign_symbol_defect_mirror_table_" + ("identical" if same else "differs"))
+        # regression on the reproducer inputs themselves: the mirror model (end state = number of trie nodes, as the repaired
+        # code's len(labels)) builds the implementation's table, whatever the iteration order of the set
+        for sigma, pats in FOREIGN_REPRO:
+            for contains in (True, False):
+                pset = set(pats)
+                r = outcome(lambda: DFA.from_substrings(set(sigma), pset, contains=contains))
+                if r[0] != "ok":
+                    continue
+                sy = enc.SymMap(sigma, extra="".join(pats))
+                timpl = enc.enc_dfa(r[1], lambda q: q, sy)
+                ap = [list(range(sy.n)), [sy.word(p) for p in pset], contains, False]
+                ans = ctx.driver.batch([(15, OP_AC, enc.tree([ap, [timpl]]))])[0]
+                mirror = enc.dec_res(ans[0])
+                same = mirror[0] == "ok" and enc.tree(canon_dfa_tree(mirror[1])) == enc.tree(timpl)
+                ctx.tally("foreign_symbol_reproducer_mirror_table_" + ("identical" if same else "differs"))
+                if not same and k["status"] != "open" and not witness:     # with a witness the confirmed violation below is reported
+                    ctx.violation("from_substrings%r over %r: the Aho-Corasick mirror model and the implementation build different "
+                                  "tables on the fixed finding's reproducer" % (pats, sigma),
+                                  {"kind": "from_substrings", "sigma": sigma, "foreign_symbol": True, "correspondence": "C15/ac-mirror",
+                                   "kwargs": repr(dict(pats=frozenset(pats), contains=contains, must_be_suffix=False))}, confirmed=False)
         if k["status"] == "open":
             if witness:
                 ctx.tally("known_foreign_symbol_defect_reproduced")
@@ -707,8 +716,8 @@ def run(ctx):
         for c in (True, False):
             for m in (False, True):
                 cases.append(Case("from_substrings", sigma, pats=pats, contains=c, must_be_suffix=m))
-    # pattern sets with a symbol outside the alphabet: must_be_suffix only (the theorem C15_from_substrings_suffix_lang
-    # needs no hypothesis on the patterns; the other mode is the open finding substrings_pattern_symbol_outside_alphabet)
+    # pattern sets with a symbol outside the alphabet (both modes since the finding substrings_pattern_symbol_outside_alphabet
+    # is fixed; the theorems C15_from_substrings_lang / _suffix_lang need no hypothesis on the patterns)
     foreign_open = any(k["id"] == "substrings_pattern_symbol_outside_alphabet" and k["status"] == "open" for k in ctx.known)
     for i in range(ctx.n(40, 600)):
         sigma = rng.choice(["a", "ab", "ab"])
